@@ -28,12 +28,26 @@ type c15Scenario struct {
 	before             map[string]string
 	beforeRib          string
 	lastWasCleanReset  bool
+	pols               string // if set: only these catalogue indices are offered (sharp drivers)
+	noRR, importOnly   bool
 }
 
 func init() {
 	simScenarios["softreset"] = func(arg string) simScenario {
 		base := simScenarios["routes"](arg + ";noflap;nopeers;noapi;oracle=c01").(*simRoutesScenario)
-		return &c15Scenario{simRoutesScenario: base}
+		sc := &c15Scenario{simRoutesScenario: base}
+		for _, kv := range strings.Split(arg, ";") {
+			k, v, _ := strings.Cut(kv, "=")
+			switch k {
+			case "pols":
+				sc.pols = v
+			case "norr":
+				sc.noRR = true
+			case "importonly":
+				sc.importOnly = true
+			}
+		}
+		return sc
 	}
 }
 
@@ -44,16 +58,24 @@ func (sc *c15Scenario) setPolicies(w *simWorld) { simSetPolicies(w, sc.imp, sc.e
 func (sc *c15Scenario) Enabled(w *simWorld) []simEvent {
 	ev := sc.simRoutesScenario.Enabled(w)
 	for k := 0; k < c15NPol; k++ {
+		if sc.pols != "" && !strings.Contains(sc.pols, fmt.Sprint(k)) {
+			continue
+		}
 		if k != sc.imp {
 			ev = append(ev, simEvent{Op: "pol", A: 0, B: k})
 		}
-		if k != sc.exp {
+		if k != sc.exp && !sc.importOnly {
 			ev = append(ev, simEvent{Op: "pol", A: 1, B: k})
 		}
 	}
-	ev = append(ev, simEvent{Op: "softin"}, simEvent{Op: "softout"}, simEvent{Op: "softboth"})
+	ev = append(ev, simEvent{Op: "softin"})
+	if !sc.importOnly {
+		ev = append(ev, simEvent{Op: "softout"}, simEvent{Op: "softboth"})
+	}
 	for i := range w.bots {
-		ev = append(ev, simEvent{Op: "rr", Bot: i})
+		if !sc.noRR {
+			ev = append(ev, simEvent{Op: "rr", Bot: i})
+		}
 	}
 	return ev
 }
@@ -220,6 +242,14 @@ func TestVerif_C15_Sim(t *testing.T) {
 	for _, c := range cfgs {
 		simExplore(t, r, simExploreCfg{Scenario: "softreset", Arg: "cfg=" + c + ";npfx=2;nvar=2", Depth: depth, Budget: budget})
 	}
+	// small sharp driver: an ADD-PATH source (two path-ids per prefix, one of them a route that the
+	// input loop check rejects), one prefix, import policy switched between "accept all" and "reject
+	// community", soft reset in — deep histories over a tiny alphabet
+	deep := 5
+	if vr.Thorough() {
+		deep = 7
+	}
+	simExplore(t, r, simExploreCfg{Scenario: "softreset", Arg: "cfg=ea;npfx=1;nvar=4;src=1;pols=02;norr;importonly", Depth: deep, Budget: budget})
 	if r.Outcomes["import-nonempty"] == 0 || r.Outcomes["export-nonempty"] == 0 || r.Outcomes["clean-reset-checked"] == 0 {
 		t.Fatalf("ENGINE-ERROR vacuous exploration %v", r.Outcomes)
 	}
